@@ -27,16 +27,43 @@ def blocks(text):
             while toks[k].kind in ('ws', 'comment', 'doc'): k += 1
             if toks[k].text == '{':
                 close = match_close(toks, k)
-                # include preceding attributes/comments directly attached
-                s = t.s
+                # include visibility and attributes directly attached: `#[..] pub(crate) mod`
                 b = i - 1
-                while b >= 0 and (toks[b].kind in ('ws', 'comment', 'doc') or False):
-                    if toks[b].kind == 'ws' and toks[b].text.count('\n') > 1:
+                def skip_ws(b):
+                    while b >= 0 and toks[b].kind == 'ws' and toks[b].text.count('\n') <= 1:
+                        b -= 1
+                    return b
+                start_tok = i
+                while True:
+                    b2 = skip_ws(b)
+                    if b2 >= 0 and toks[b2].kind == 'punct' and toks[b2].text == ')':
+                        # pub(...)
+                        d = 0; q = b2
+                        while q >= 0:
+                            if toks[q].text == ')': d += 1
+                            elif toks[q].text == '(':
+                                d -= 1
+                                if d == 0: break
+                            q -= 1
+                        q2 = skip_ws(q - 1)
+                        if q2 >= 0 and toks[q2].text == 'pub':
+                            start_tok = q2; b = q2 - 1; continue
                         break
-                    b -= 1
-                # attributes: #[...] or pub before mod
-                s = toks[b + 1].s if b + 1 < i else t.s
-                while text[s:s+1].isspace(): s += 1
+                    if b2 >= 0 and toks[b2].kind == 'ident' and toks[b2].text == 'pub':
+                        start_tok = b2; b = b2 - 1; continue
+                    if b2 >= 0 and toks[b2].kind == 'punct' and toks[b2].text == ']':
+                        d = 0; q = b2
+                        while q >= 0:
+                            if toks[q].text == ']': d += 1
+                            elif toks[q].text == '[':
+                                d -= 1
+                                if d == 0: break
+                            q -= 1
+                        if q - 1 >= 0 and toks[q - 1].text == '#':
+                            start_tok = q - 1; b = q - 2; continue
+                        break
+                    break
+                s = toks[start_tok].s
                 rest.append(text[last:s])
                 out[name] = text[s:toks[close].e]
                 last = toks[close].e
